@@ -398,6 +398,18 @@ def judge(ctx, o, text, v, bl2, ol, om, bl, negative, case, bm=()):
         ctx.violation("final-delimiter-accepted-where-not-allowed", {"result": safe_norm(t)}, case)
         return
     ctx.count("parses_compared")
+    if len(text) % 5 == 2:
+        # the other documented route to the same result: parse without cleanup, clean up afterwards
+        try:
+            t_raw = parser.parse(text, do_cleanup=False)
+            parser.cleanup(t_raw)
+        except Exception as err:
+            ctx.violation("parse-raises", {"type": type(err).__name__, "msg": str(err)[:200], "route": "cleanup()"}, case)
+            return
+        ctx.count("separate_cleanup_calls_compared")
+        if safe_norm(t_raw) != safe_norm(t):
+            ctx.violation("separate-cleanup-gives-another-result", {"cleanup": safe_norm(t_raw), "parse": safe_norm(t)}, case)
+            return
     mech = None
     detail = None
     try:
